@@ -10,8 +10,11 @@ import (
 	"strings"
 	"time"
 
+	"github.com/google/shlex"
 	"github.com/trzsz/trzsz-go/internal/verifsim"
 )
+
+func shlexSplit(s string) ([]string, error) { return shlex.Split(s) }
 
 // xferOpts describes one client ⇄ (relays) ⇄ trz/tsz conversation.
 type xferOpts struct {
@@ -112,6 +115,7 @@ type xferWorld struct {
 	lastMoveAt    time.Duration
 	capHit        bool
 	noServer        bool               // start the client (and relays) only
+	shellCmd        string
 	firers          []*vFirer
 	clientConnector func(int) net.Conn // overrides the client's tunnel connector (C17)
 	paused        bool // a pause was requested at some point (keep-alive lines are legitimate)
@@ -323,9 +327,78 @@ func (x *xferWorld) start() {
 		if x.noServer {
 			return
 		}
+		if o.upload && o.uploadVia != 0 {
+			// uploads through the drag queue: the filter interrupts the shell and types the upload
+			// command itself; a scripted shell echoes it and starts the real trz
+			cmd := "trz"
+			for _, f := range o.flags {
+				if f != "-d" && f != "-r" {
+					cmd += " " + f
+				}
+			}
+			cmd += " " + vShellQuote(o.dstDir)
+			x.filter.SetDragFileUploadCommand(cmd)
+			x.w.Go("shell", nil, func() { x.shell() })
+			if o.uploadVia == 1 {
+				if err := x.filter.UploadFiles(o.srcPaths); err != nil {
+					x.uploadErrImm = err
+				}
+			} else {
+				// the user drops the files on the terminal: the terminal types their paths in one go
+				var b []byte
+				for _, p := range o.srcPaths {
+					b = append(b, vShellQuote(p)...)
+					b = append(b, ' ')
+				}
+				verifsim.Sleep(1100 * time.Millisecond) // drag detection arms itself shortly after start
+				x.kbd.Write(b)
+			}
+			return
+		}
 		// the "user" now types the command: the server process starts
 		x.launchServer()
 	})
+}
+
+func vShellQuote(p string) string {
+	if strings.ContainsAny(p, " '\t") {
+		return "'" + p + "'"
+	}
+	return p
+}
+
+// shell is the scripted remote shell used for drag uploads: it reacts to Ctrl-C with a fresh
+// prompt, echoes the command line it is sent and then runs trz with those arguments.
+func (x *xferWorld) shell() {
+	buf := make([]byte, 4096)
+	var line []byte
+	for {
+		n, err := x.upLast().Read(buf)
+		if err != nil {
+			return
+		}
+		for _, c := range buf[:n] {
+			switch c {
+			case 0x03:
+				line = nil
+				x.downLast().Write([]byte("^C\r\n$ "))
+			case '\r', '\n':
+				cmdline := string(line)
+				x.downLast().Write([]byte(cmdline + "\r\n"))
+				fields, ferr := shlexSplit(cmdline)
+				if ferr == nil && len(fields) > 0 && fields[0] == "trz" {
+					x.server.Args = fields
+					x.shellCmd = cmdline
+					x.launchServer()
+					return
+				}
+				line = nil
+				x.downLast().Write([]byte("$ "))
+			default:
+				line = append(line, c)
+			}
+		}
+	}
 }
 
 // prepareServer configures the server process of the next transfer (x.server must be fresh).
